@@ -23,12 +23,14 @@ def FlagTabOK (ap : Bool) (t : FTab FCol) : Prop :=
     one-line comment, each with any positive number of columns carrying ANY SUBSET of `pk`, `increment`, `unique`,
     `not null`, possibly an integer default, a one-line note and - with the properties switch on - any number of arbitrary properties, is
     rendered to DBML and parsed back to exactly the same database: same tables, same comments on the same tables, same
-    columns, settings, notes, properties, all in the same order. -/
+    columns, settings, notes, properties, all in the same order.  (`hno`: no column declares an inline reference here -
+    there is nothing yet for one to point at as a theorem of tables alone; `flags_document_roundtrip_partial` covers them.) -/
 theorem flags_tables_roundtrip_partial (ap : Bool) (ts : List (FTab FCol))
-    (hok : ∀ t ∈ ts, FlagTabOK ap t) (hne : ts ≠ []) (hd : ts.Pairwise (fun a b => a.name ≠ b.name)) :
+    (hok : ∀ t ∈ ts, FlagTabOK ap t) (hne : ts ≠ []) (hd : ts.Pairwise (fun a b => a.name ≠ b.name))
+    (hno : ∀ t ∈ ts, ∀ s ∈ t.cols, s.irefs = []) :
     ∃ text, Dbml.renderDb { tables := ts.map flagTable, allowProps := ap } = .ok text
       ∧ Build.parse ap text = .ok { tables := ts.map flagTable, allowProps := ap } :=
-  form_tables_roundtrip flagForm ap ts hok hne hd
+  form_tables_roundtrip flagForm ap ts hok hne hd hno
 
 /-- the rendered text of two such tables (a test of the statement on one literal) -/
 example : flagForm.docText [{ name := lit "a", cols := [{ name := lit "id", type := lit "int", pk := true }], comment := some (lit "the a's") },
@@ -43,18 +45,18 @@ example : flagForm.docText [{ name := lit "a", cols := [{ name := lit "id", type
     database: the comment above a table is stored on that table, the references are resolved - by table name and
     column name - to the very positions they were written from.  The hypotheses on names are exactly the recorded
     findings: no dot in a table name, a column name is one comma-free piece that survives `strip('() ')`, no two columns
-    of one table with one name. -/
+    of one table with one name; `hno`: the references here are all standalone (inline ones: `flags_document_roundtrip_partial`). -/
 theorem flags_refs_roundtrip_partial (ap : Bool) (ts : List (FTab FCol)) (rs : List RSpec)
     (hok : ∀ t ∈ ts, FlagTabOK ap t) (hts : ts ≠ [])
     (htn : ts.Pairwise (fun a b => a.name ≠ b.name)) (hnodot : ∀ t ∈ ts, '.' ∉ t.name)
     (hcn : ∀ t ∈ ts, t.cols.Pairwise (fun a b => a.name ≠ b.name))
     (hcp : ∀ t ∈ ts, ∀ c ∈ t.cols, splitComma c.name = [c.name] ∧ stripParenSpace c.name = c.name)
     (hin : ∀ r ∈ rs, ∃ ta tb, ts[r.t1]? = some ta ∧ ts[r.t2]? = some tb ∧ r.c1 < ta.cols.length ∧ r.c2 < tb.cols.length)
-    (hrs : rs ≠ []) (hnd : rs.Nodup) :
+    (hrs : rs ≠ []) (hnd : rs.Nodup) (hno : ∀ t ∈ ts, ∀ s ∈ t.cols, s.irefs = []) :
     ∃ text, Dbml.renderDb { tables := ts.map flagTable, refs := rs.map mkRef, allowProps := ap } = .ok text
       ∧ Build.parse ap text = .ok { tables := ts.map flagTable, refs := rs.map mkRef, allowProps := ap } :=
   form_refs_roundtrip flagForm ap ts rs hok (fun t ht s hs => ((hok t ht).2.1 s hs).name) hts
-    ⟨htn, hnodot, hcn, hcp⟩ hin hrs hnd
+    ⟨htn, hnodot, hcn, hcp⟩ hin hrs hnd hno
 
 /-- the rendered text of two such tables and a reference (a test of the statement on one literal) -/
 example : flagForm.docTextR [{ name := lit "a", cols := [{ name := lit "id", type := lit "int", pk := true }] },
